@@ -595,6 +595,50 @@ def run_wide_pairs(ctx, n_bases):
                        table=table)
 
 
+def run_huge_groups(ctx, n_bases):
+    """election groups beyond the batch sizes of the nearest-neighbour search:
+    10001-15000 cells in ONE chunk (so that the root group, and large groups
+    below it, exceed 10000 rows) against the same cells in small files"""
+    rng = ctx.rng
+    for _ in range(n_bases):
+        for _try in range(200):
+            problem = U.make_problem(rng, max_depth=3, max_leaves=6, n_cells=6,
+                                     n_genes=8)
+            t = problem['tree']
+            if len(t[t['hierarchy'][0]]) >= 2:
+                break       # the root itself votes on the whole chunk
+        sanitize(rng, problem)
+        n = 10000 + rng.choice([rng.randint(1, 4999), rng.randint(1, 4999),
+                                5000])
+        ids, X = [], []
+        base_rows = [list(x) for x in problem['X']]
+        for i in range(n):
+            ids.append('h%d' % i)
+            if i < n - 40 and rng.random() < 0.9:
+                X.append(list(rng.choice(base_rows)))
+            else:
+                X.append(draw_row(rng, problem))
+        problem['cell_ids'], problem['X'] = ids, X
+        cfg = U.gen_config(rng, problem, flatten=False, factor=1.0)
+        cfg.update(flatten=False, drop_level=None, chunk_size=n + 5,
+                   n_processors=1, bootstrap_iteration=1, n_runners_up=1,
+                   encoding='dense')
+        ctx.count('huge-group:%d-cells' % (n // 1000 * 1000))
+        table = {}
+        base = run_one(ctx, problem, cfg, table, 'huge-base')
+        cells = list(zip(ids, X))
+        # the tail of the file and a random sample, mapped as a small file
+        for kind, pick in (('huge-tail', cells[-30:]),
+                           ('huge-sample', rng.sample(cells, 30))):
+            d = copy.deepcopy(problem)
+            d['cell_ids'] = [c for c, _ in pick]
+            d['X'] = [list(x) for _, x in pick]
+            dc = dict(cfg, chunk_size=rng.randint(5, 40),
+                      rng_seed=rng.randrange(1, 10000))
+            check_pair(ctx, problem, cfg, d, dc, kind, base_run=base,
+                       table=table)
+
+
 def check_choose_node(ctx, case):
     """the real choose_node at bootstrap factor 1 against an independent
     arg-max of the Pearson correlation (numpy only): many candidate types,
@@ -690,6 +734,7 @@ def run(ctx):
               KINDS_QUICK if quick else KINDS_THOROUGH)
     run_choose_node(ctx, quick)
     run_wide_pairs(ctx, 2 if quick else 10)
+    run_huge_groups(ctx, 1 if quick else 4)
 
 
 def replay(ctx, data, from_corpus=False):
